@@ -8,13 +8,20 @@
 (*      compared entry by entry (a panic is recorded as the sentinel -99999 and never conforms).                                       *)
 (*  {"ev":"batchinv","v":[..],"res":[..]}: batch inversion, zeros map to zero.                           *)
 (*  {"ev":"opseq","op","xs","ys","res"}: a sequence of calls (many repeats over few values) in call order.  *)
+(*  {"ev":"chain","rows":[[a,b,c,d,val,balinv,zero,eq1,eq2],..]}: t = (a+b)*c-d kept inside the field type. *)
 EXTENDS Zq, TraceLib
 FQ == 12289
 DM == 1000003
 VARIABLES l, bad
 vars == <<l, bad>>
 
-Op(op, a, b) == IF op = "add" THEN AddM(a, b, FQ) ELSE IF op = "sub" THEN SubM(a, b, FQ) ELSE MulM(a, b, FQ)
+\* "add_assign" etc. are the compound-assignment impls, "multiply" the const fn, "div" = a * b^-1 (b # 0)
+Op(op, a, b) == IF op \in {"add", "add_assign"} THEN AddM(a, b, FQ) ELSE IF op \in {"sub", "sub_assign"} THEN SubM(a, b, FQ)
+                ELSE IF op = "div" THEN MulM(a, InvM(b, FQ), FQ) ELSE MulM(a, b, FQ)
+\* one row of a chain event: <<a, b, c, d, value, balanced inverse, is_zero, eq1, eq2>> for t = (a + b) * c - d
+ChainOk(r) ==
+  LET t == SubM(MulM(AddM(r[1], r[2], FQ), r[3], FQ), r[4], FQ)
+  IN r[5] = t /\ r[6] = Balanced(InvM(t, FQ), FQ) /\ r[7] = (IF t = 0 THEN 1 ELSE 0) /\ r[8] = 1 /\ r[9] = 1
 RowDigest(op, b) ==
   FoldRange(LAMBDA acc, a : LET r == Op(op, a, b) IN
               [sum |-> (acc.sum + r) % DM, wsum |-> (acc.wsum + (((a + 1) * r) % DM)) % DM,
@@ -32,6 +39,9 @@ Judge(e) ==
     IN [ok |-> badidx = {}, branch |-> "table-" \o e.op,
         detail |-> IF badidx = {} THEN <<Len(e.vals)>> ELSE <<"first-bad-input", e.first + Min(badidx) - 1, "code", e.vals[Min(badidx)],
                                                              "spec", Unary(e.op, e.first + Min(badidx) - 1), "count", Cardinality(badidx)>>]
+  ELSE IF e.ev = "chain" THEN
+    LET badidx == {i \in 1..Len(e.rows) : ~ChainOk(e.rows[i])}
+    IN [ok |-> badidx = {}, branch |-> "chain", detail |-> IF badidx = {} THEN <<Len(e.rows)>> ELSE <<"first-bad-row", e.rows[Min(badidx)], "count", Cardinality(badidx)>>]
   ELSE IF e.ev = "opseq" THEN
     \* a sequence of calls in call order: every result is judged on its own (history must not matter)
     LET want(i) == IF e.op \in {"add", "sub", "mul"} THEN Op(e.op, e.xs[i], e.ys[i]) ELSE Unary(e.op, e.xs[i])
